@@ -19,6 +19,9 @@ ASSUMPTIONS = ["preemption inside the wrapper's own bytecode (between get / in /
                "free-threaded builds are out of scope"]
 WORKERS = 1
 INHERIT = ["fresh", "copy_before", "copy_after"]
+NEIGHBOURS = [{"from": "C03", "limit": 400, "why": "in-progress marking of instances in fresh contexts"},
+              {"from": "C16", "limit": 400, "why": "verdicts do not depend on earlier calls re-ordering shared lists"},
+              {"from": "C11", "limit": 400, "why": "a cancelled call leaves no mark behind in its context"}]
 
 
 def call(f, t, cy, by):
